@@ -93,7 +93,23 @@ macro_rules! ok_or_none {
     };
 }
 
+/// Every scenario, and every scenario that is not about spawning once more with the caller's descriptors 0 and 1
+/// closed: whatever the operation opens first then gets the numbers 0 and 1 (a daemon's situation), which must
+/// make no difference to what stays open afterwards.
 pub fn scenarios() -> Vec<(&'static str, Op)> {
+    static NAMES: std::sync::OnceLock<Vec<&'static str>> = std::sync::OnceLock::new();
+    let base = base_scenarios();
+    let names = NAMES.get_or_init(|| base.iter().map(|(n, _)| &*Box::leak(format!("{n} {CLOSED_STD}").into_boxed_str())).collect());
+    let mut all = base.clone();
+    for (k, (n, op)) in base.iter().enumerate() {
+        if !n.starts_with("Command::spawn") && !n.contains(CLOSED_STD) {
+            all.push((names[k], *op));
+        }
+    }
+    all
+}
+
+fn base_scenarios() -> Vec<(&'static str, Op)> {
     vec![
         ("File::open existing", |e| {
             let f = ok_or_none!(File::open(&p(e, "file.txt")));
